@@ -174,7 +174,7 @@ def _parse_one(b, i, depth):
         kids = parse_all(inner, depth + 1)
         if kids is not None and kids and (tag & 0x20):
             node.children = kids
-    return node, j
+    return node, j + n
 
 def parse_all(b, depth=0):
     out, i = [], 0
@@ -212,6 +212,120 @@ def offsets(b, base=0, depth=0, out=None, budget=None):
                 offsets(node.content[1:], base + i + hdr + 1, depth + 1, out, budget)
         i = j
     return out
+
+# ------------------------------------------------------------------------------- length-consistent rebuilding
+# A decoded tree that also looks inside OCTET STRING / BIT STRING wrappers, so that a leaf deep inside an
+# extension value can be resized and EVERY enclosing length (SEQUENCEs and the wrappers) is re-encoded to
+# match: the parser then really reaches the code that handles the resized element.
+class T:
+    __slots__ = ("tag", "kids", "content", "wrap")
+    def __init__(self, tag, kids, content, wrap):
+        self.tag, self.kids, self.content, self.wrap = tag, kids, content, wrap      # wrap: None | "octet" | "bits"
+    def enc(self):
+        if self.kids is None:
+            return tlv(self.tag, self.content)
+        body = b"".join(k.enc() for k in self.kids)
+        if self.wrap == "bits":
+            body = self.content[:1] + body
+        return tlv(self.tag, body)
+
+def _tree_list(b, depth, budget):
+    out, i = [], 0
+    while i < len(b):
+        r = _parse_one(b, i, 99)
+        if r is None or budget[0] <= 0:
+            return None
+        node, j = r
+        budget[0] -= 1
+        kids, wrap = None, None
+        c = node.content
+        if depth < 24 and len(c) >= 2:
+            if node.tag & 0x20:
+                kids = _tree_list(c, depth + 1, budget)
+            elif node.tag == 0x04 and c[0] in (0x30, 0x31, 0x03, 0x04, 0x02, 0x06) and len(c) < 16384:
+                kids = _tree_list(c, depth + 1, budget); wrap = "octet" if kids else None
+            elif node.tag == 0x03 and c[0] == 0 and c[1] == 0x30 and len(c) < 16384:
+                kids = _tree_list(c[1:], depth + 1, budget); wrap = "bits" if kids else None
+        if kids is not None and not kids:
+            kids = None
+        out.append(T(node.tag, kids, c, wrap if kids is not None else None))
+        i = j
+    return out
+
+def tree(b):
+    """list of T for the TLVs of b, or None when b is not a sequence of well-formed TLVs"""
+    return _tree_list(b, 0, [4000])
+
+def leaves(ts, out=None):
+    out = [] if out is None else out
+    for t in ts or ():
+        if t.kids is None:
+            out.append(t)
+        else:
+            leaves(t.kids, out)
+    return out
+
+def sized_content(tag, old, n):
+    """n content octets in the style of the element: OID arcs stay < 0x80 (a well-formed, just very long, OID),
+    strings repeat their text, integers stay positive, everything else repeats its bytes"""
+    if n == 0:
+        return b""
+    if tag == 0x06:
+        base = old[:min(len(old), n)] or b"\x2a"
+        return (base + b"\x03" * n)[:n - 1] + b"\x03"
+    if tag in (0x0C, 0x13, 0x16, 0x14, 0x1E, 0x17, 0x18, 0x86, 0x82, 0x81):
+        base = old or b"x"
+        return (base * (n // len(base) + 1))[:n]
+    if tag == 0x02:
+        base = old or b"\x01"
+        return (base[:1] if base[0] < 0x80 and base[0] > 0 else b"\x01") + ((base + b"\x5a") * (n // len(base) + 1))[:n - 1]
+    if tag == 0x03:
+        return b"\x00" + ((old[1:] or b"\xa5") * n)[:n - 1]
+    base = old or b"\xa5"
+    return (base * (n // len(base) + 1))[:n]
+
+# lengths on both sides of every integer-width / table-size boundary the C code crosses
+WIDTH_LENS = sorted(set([0, 1, 2, 29, 30, 31, 32, 33, 126, 127, 128, 129] + list(range(253, 260)) + list(range(256 + 27, 256 + 34)) +
+                        list(range(510, 515)) + list(range(512 + 28, 512 + 33)) + [1023, 1024, 1025, 4095, 4096, 4097]))
+
+def resized(ts, leaf, n):
+    """DER of the tree with `leaf` given n content octets, all enclosing lengths consistent"""
+    old = leaf.content
+    leaf.content = sized_content(leaf.tag, old, n)
+    try:
+        return b"".join(t.enc() for t in ts)
+    finally:
+        leaf.content = old
+
+def cert_all_extensions():
+    """a v3 certificate carrying every extension kind the library parses, each with the OIDs / strings /
+    integers its parser copies into fixed-size or 8/16-bit-counted storage"""
+    kp = lambda x: oid("1.3.6.1.5.5.7.3.%d" % x)
+    exts = [
+        extension("bc", seq(boolean(True), integer(3)), True),
+        extension("ku", tlv(3, b"\x01\x86"), True),
+        extension("eku", seq(kp(1), kp(2), kp(3), kp(4), kp(8), kp(9), oid("2.5.29.37.0"), oid("1.2.3.4.5"))),
+        extension("skid", octet(bytes(range(20)))),
+        extension("akid", seq(ctx(0, bytes(range(20)), False), ctx(1, general_name(4, name(attr("cn", "akid issuer")))), ctx(2, b"\x10\x01", False))),
+        san_ext([general_name(2, b"a.example.com"), general_name(1, b"bob@example.com"), general_name(7, bytes([10, 0, 0, 1])),
+                 general_name(6, b"https://a.example.com/x"), other_name("1.3.6.1.4.1.311.20.2.3", b"user@corp"), general_name(4, name(attr("cn", "dir")))]),
+        san_ext([general_name(2, b"issuer.example.com")], which="ian"),
+        extension("2.5.29.32", seq(seq(oid("2.5.29.32.0"), seq(seq(oid("1.3.6.1.5.5.7.2.1"), ia5("http://cps.example.com/")),
+                                                                seq(oid("1.3.6.1.5.5.7.2.2"), seq(seq(utf8("Org"), seq(integer(1), integer(2))), utf8("explicit text"))))),
+                                   seq(oid("1.2.3.4")))),
+        extension("2.5.29.33", seq(seq(oid("1.2.3.4"), oid("1.2.3.5")), seq(oid("1.2.3.6"), oid("1.2.3.7")))),
+        extension("2.5.29.36", seq(ctx(0, b"\x01", False), ctx(1, b"\x02", False))),
+        extension("2.5.29.54", integer(2)),
+        extension("nc", seq(ctx(0, seq(general_name(2, b".example.com")), True), ctx(1, seq(general_name(2, b"bad.example.com")), True))),
+        extension("crldp", seq(seq(ctx(0, ctx(0, general_name(6, b"http://crl.example.com/ca.crl")))))),
+        extension("aia", seq(seq(oid("1.3.6.1.5.5.7.48.1"), general_name(6, b"http://ocsp.example.com/")),
+                             seq(oid("1.3.6.1.5.5.7.48.2"), general_name(6, b"http://ca.example.com/ca.crt")))),
+        extension("2.16.840.1.113730.1.13", ia5("netscape comment")),
+        extension("1.2.3.4.5.6.7", octet(b"unknown extension")),
+    ]
+    subject = name(attr("c", "FI", 0x13), attr("st", "Uusimaa"), attr("o", "Verif"), attr("ou", "unit"), attr("dc", "example", 0x16),
+                   attr("serial", "42", 0x13), attr("cn", "leaf.example.com"))
+    return cert(exts, subject=subject)
 
 # ------------------------------------------------------------------------------- mutation
 BOUNDARY_LENS = [0, 1, 2, 0x7E, 0x7F, 0x80, 0x81, 0xFF, 0x100, 0x101, 0x7FFF, 0x8000, 0xFFFE, 0xFFFF, 0x10000, 0x10005,
@@ -264,9 +378,22 @@ def mutate(r, der, offs=None):
         for _ in range(r.choice([1, 3, 30, 200])):
             e = tlv(0x30, e)
         return "nest", der[:s] + e + der[s + h + n:]
-    # k == 13: fix up parent lengths after growing the content with junk (length-consistent growth)
+    # k == 13: grow the content with junk (enclosing lengths NOT adjusted; see mutate_resize for the consistent form)
     junk = bytes(r.randrange(256) for _ in range(r.choice([1, 2, 127, 128, 300])))
     return "append-junk", der[:s + h + n] + junk + der[s + h + n:]
+
+def mutate_resize(r, der, ts=None):
+    """length-CONSISTENT resize of one leaf to a width-boundary length; returns (kind, bytes) or None"""
+    ts = ts if ts is not None else tree(der)
+    if not ts:
+        return None
+    ls = leaves(ts)
+    if not ls:
+        return None
+    oids = [l for l in ls if l.tag == 0x06]
+    leaf = r.choice(oids) if oids and r.random() < 0.5 else r.choice(ls)
+    n = r.choice(WIDTH_LENS)
+    return "resize:%02x:%d" % (leaf.tag, n), resized(ts, leaf, n)
 
 
 if __name__ == "__main__":
